@@ -4,7 +4,8 @@
 
    What is assumed about the Go runtime (checked by the correspondence run, not proved):
    - strconv.ParseUint(p, 10, 16) = a non-empty string of ASCII digits whose value is <= 65535
-     (any number of leading zeros; no sign, no underscore);
+     (leading zeros allowed; no sign, no underscore); splitServerName hands it at most five
+     characters;
    - net.ParseIP as transcribed below (dispatch on the first of . : percent; IPv4 = four decimal
      octets without leading zeros; IPv6 = RFC 4291 text form, groups of 1-4 hex digits, at most
      one double colon standing for at least one group, optional trailing dotted quad; zones
@@ -13,7 +14,9 @@ From Verif Require Import Lib.Bytes Ident.Chars.
 Open Scope N_scope.
 
 (* ---- port ---- *)
+(* at most five characters (repair of F101), then strconv.ParseUint(p, 10, 16) *)
 Definition parse_port (p : bytes) : option N :=
+  if 5 <? len p then None else
   match parse_dec p with
   | Some n => if n <=? 65535 then Some n else None
   | None => None
